@@ -29,7 +29,7 @@ CFG = dict(
           "which executed at least 3 generated operations."),
     exhaustive={"quick": False, "thorough": False},
     exhaustive_domain={"quick": "every ordered triple of the 21 operation kinds after a fixed prelude (complete over kinds^3, fixed parameters) + 150 seeded histories, x 25 (image type, allocator flavour, language mode) configurations; every allocation point of each seeded history",
-                       "thorough": "2000 histories x 25 configurations, up to 40 operations"},
+                       "thorough": "all op triples x 2 parameter variants + 10000 seeded histories of up to 40 operations x 25 configurations; any_image: 20000 histories"},
     types=["image<rgb8_pixel_t,false,A>", "image<rgb8_pixel_t,true,A>", "image<gray16_pixel_t,false,A>", "bit_aligned_image3_type<1,2,3,rgb_layout_t,A>",
            "image<telem,false,A>", "any_image<rgb8, gray16, rgb8 planar over the ledger allocator>", "A in {led::alloc always-equal, propagating, sticky; std::pmr::polymorphic_allocator}"],
     assumptions=["swap is only generated between images whose allocators are equal or propagate on swap (anything else is undefined for any container)",
@@ -38,7 +38,7 @@ CFG = dict(
                  "contents after a plain recreate are unspecified and are overwritten by the harness"],
     tus=[tu(_name(i, f, s), SRC, "asan", std=s, extra=NONULL + ["-DIMG=%d" % i, "-DFLAV=%d" % f]) for (i, f, s) in CONF]
         + [tu("c10_any_image", "harness/c10_any_image.cpp", "asan", extra=NONULL)],
-    runs=[run(_name(i, f, s), shards={"quick": 1, "thorough": 4}, leaks=True,
-              min_cases={"quick": 591, "thorough": 2441}) for (i, f, s) in CONF]
-        + [run("c10_any_image", shards={"quick": 2, "thorough": 8}, leaks=True, min_cases={"quick": 400, "thorough": 4000})],
+    runs=[run(_name(i, f, s), shards={"quick": 1, "thorough": 8}, leaks=True,
+              min_cases={"quick": 591, "thorough": 10441}) for (i, f, s) in CONF]
+        + [run("c10_any_image", shards={"quick": 2, "thorough": 8}, leaks=True, min_cases={"quick": 400, "thorough": 20000})],
 )
